@@ -495,15 +495,18 @@ int liberasurecode_encode(int desc,
     /*
      * Allocate arrays for data, parity and missing_idxs
      */
+    *encoded_parity = NULL;
     *encoded_data = (char **) alloc_zeroed_buffer(sizeof(char *) * k);
     if (NULL == *encoded_data) {
         log_error("Could not allocate data buffer!");
+        ret = -ENOMEM;
         goto out;
     }
 
     *encoded_parity = (char **) alloc_zeroed_buffer(sizeof(char *) * m);
     if (NULL == *encoded_parity) {
         log_error("Could not allocate parity buffer!");
+        ret = -ENOMEM;
         goto out;
     }
 
